@@ -31,7 +31,8 @@ EXC = {'ValueError': 'valueError', 'IndexError': 'indexError', 'TypeError': 'typ
        'InvalidTableSizeError': 'invalidTableSizeError', 'OversizedHeaderListError': 'oversizedHeaderListError'}
 
 LEAN_T = {'int': 'Int', 'bytes': 'List UInt8', 'listint': 'List Int', 'bool': 'Bool', 'unit': 'Unit',
-          'entry': '(List UInt8 × List UInt8)', 'listentry': 'List (List UInt8 × List UInt8)'}
+          'entry': '(List UInt8 × List UInt8)', 'listentry': 'List (List UInt8 × List UInt8)',
+          'triple': '(Int × Int × Int)', 'listtriple': 'List (Int × Int × Int)'}
 
 
 def lean_t(ty):
@@ -80,6 +81,8 @@ def expr(e, env, cx):
             return [], '(%d : Int)' % e.value, 'int'
         if isinstance(e.value, str):
             return [], '()', 'str'
+        if isinstance(e.value, bytes):
+            return [], '([%s] : List UInt8)' % ', '.join(str(x) for x in e.value), 'bytes'
         raise Unsupported('constant %r' % (e.value,))
     if isinstance(e, ast.JoinedStr):
         # formatting an int into a string raises ValueError beyond sys.get_int_max_str_digits() digits; other pieces
@@ -101,7 +104,7 @@ def expr(e, env, cx):
             v = cx.consts[e.id]
             if e.id not in cx.used_consts:
                 cx.used_consts.append(e.id)
-            return [], 'c_' + e.id, 'int' if isinstance(v, int) else 'listint'
+            return [], 'c_' + e.id, 'int' if isinstance(v, int) else ('listtriple' if v == 'TRIPLES' else 'listint')
         raise Unsupported('name %s' % e.id)
     if isinstance(e, ast.Attribute) and isinstance(e.value, ast.Name):
         if e.value.id == 'self' and env.get('self', '').startswith('self:') and cx.cls and e.attr in cx.cls['fields']:
@@ -150,6 +153,8 @@ def expr(e, env, cx):
             return bv + bi + ['let %s ← Py.listGet %s %s' % (t, tv, ti)], t, 'int'
         if tyv == 'listentry':
             return bv + bi + ['let %s ← Py.seqGet %s %s' % (t, tv, ti)], t, 'entry'
+        if tyv == 'listtriple':
+            return bv + bi + ['let %s ← Py.seqGet %s %s' % (t, tv, ti)], t, 'triple'
         raise Unsupported('subscript of ' + tyv)
     if isinstance(e, ast.List):
         bs, ts = [], []
@@ -167,6 +172,8 @@ def expr(e, env, cx):
         return bs, '(' + ', '.join(ts) + ')', 'tuple:' + ','.join(tys)
     if isinstance(e, ast.Call) and isinstance(e.func, ast.Name):
         f = e.func.id
+        if f in ('bytearray', 'bytes') and not e.args and not e.keywords:
+            return [], '([] : List UInt8)', 'bytes'
         if f in ('bytearray', 'bytes') and len(e.args) == 1 and not e.keywords:
             b, t, ty = expr(e.args[0], env, cx)
             if ty == 'listint':
@@ -211,6 +218,16 @@ def cond(e, env, cx):
     if isinstance(e, ast.UnaryOp) and isinstance(e.op, ast.Not):
         b, t = cond(e.operand, env, cx)
         return b, '(¬ %s)' % t
+    if not isinstance(e, ast.Compare):
+        # truthiness of a value: a non-zero integer, a non-empty bytes object, a true bool
+        b, t, ty = expr(e, env, cx)
+        if ty == 'int':
+            return b, '(%s ≠ (0 : Int))' % t
+        if ty in ('bytes', 'listint', 'listentry'):
+            return b, '(%s ≠ [])' % t
+        if ty == 'bool':
+            return b, '(%s = true)' % t
+        raise Unsupported('truth value of ' + ty)
     if isinstance(e, ast.Compare):
         items = [e.left] + list(e.comparators)
         bs, ts = [], []
@@ -226,7 +243,7 @@ def cond(e, env, cx):
                 raise Unsupported('comparison ' + type(op).__name__)
             cs.append('%s %s %s' % (ts[i], sym[type(op).__name__], ts[i + 1]))
         return bs, '(' + ' ∧ '.join(cs) + ')'
-    raise Unsupported('condition ' + type(e).__name__)
+    raise Unsupported('condition ' + type(e).__name__)      # not reached
 
 
 # ------------------------------------------------------------------------------------------------ statements
@@ -263,6 +280,21 @@ def assigned_in(stmts):
 def ret_ok(env, text, cx):
     """the value a `return` produces: methods also hand back the object"""
     return '.ok (self, %s)' % text if env.get('self', '').startswith('self:') else '.ok %s' % text
+
+
+def _is_str_expr(v):
+    return isinstance(v, ast.JoinedStr) or (isinstance(v, ast.Constant) and isinstance(v.value, str)) or \
+        (isinstance(v, ast.BinOp) and isinstance(v.op, ast.Mod) and _is_str_expr(v.left))
+
+
+def message_vars(stmts):
+    """names that only ever receive message strings (opaque, never tracked)"""
+    val = {}
+    for s in stmts:
+        for n in ast.walk(s):
+            if isinstance(n, ast.Assign) and len(n.targets) == 1 and isinstance(n.targets[0], ast.Name):
+                val.setdefault(n.targets[0].id, []).append(_is_str_expr(n.value))
+    return {k for k, v in val.items() if all(v)}
 
 
 def toplevel_assigned(stmts):
@@ -344,6 +376,14 @@ def tr(stmts, env, cx, k):
             raise Unsupported('unpacking of ' + ty)
         env2 = dict(env); env2[a] = 'bytes'; env2[b_] = 'bytes'
         return bb + ['let %s := %s.1' % (lname(a), t), 'let %s := %s.2' % (lname(b_), t)] + tr(rest, env2, cx, k)
+    if isinstance(s, ast.Assign) and len(s.targets) == 1 and isinstance(s.targets[0], ast.Tuple) \
+            and all(isinstance(x, ast.Name) for x in s.targets[0].elts) and len(s.targets[0].elts) == 3:
+        a, b_, c_ = [x.id for x in s.targets[0].elts]
+        bb, t, ty = expr(s.value, env, cx)
+        if ty != 'triple':
+            raise Unsupported('unpacking of ' + ty)
+        env2 = dict(env); env2[a] = 'int'; env2[b_] = 'int'; env2[c_] = 'int'
+        return bb + ['let %s := %s.1' % (lname(a), t), 'let %s := %s.2.1' % (lname(b_), t), 'let %s := %s.2.2' % (lname(c_), t)] + tr(rest, env2, cx, k)
     if isinstance(s, ast.Assign):
         if len(s.targets) != 1 or not isinstance(s.targets[0], ast.Name):
             raise Unsupported('assignment target')
@@ -398,6 +438,12 @@ def tr(stmts, env, cx, k):
     if isinstance(s, ast.Expr) and isinstance(s.value, ast.Call) and isinstance(s.value.func, ast.Attribute) \
             and s.value.func.attr == 'append' and isinstance(s.value.func.value, ast.Name):
         lst = s.value.func.value.id
+        if env.get(lst) == 'bytes' and len(s.value.args) == 1:          # bytearray.append(int): ValueError outside range(256)
+            b, t, ty = expr(s.value.args[0], env, cx)
+            if ty != 'int':
+                raise Unsupported('append of ' + ty)
+            tt = cx.fresh()
+            return b + ['let %s ← Py.bytesAppend %s %s' % (tt, lname(lst), t), 'let %s := %s' % (lname(lst), tt)] + tr(rest, env, cx, k)
         if env.get(lst) != 'listint' or len(s.value.args) != 1:
             raise Unsupported('append on ' + str(env.get(lst)))
         b, t, ty = expr(s.value.args[0], env, cx)
@@ -444,7 +490,10 @@ def tr(stmts, env, cx, k):
         params = [v for v in env if v in occurring]
         assigned = assigned_in(s.body)
         rets = [v for v in params if v in assigned]
+        msgs = message_vars(list(s.body))
         for v in assigned:
+            if v in msgs:
+                continue
             if v not in env and any(v in names_in(x) for x in rest):
                 raise Unsupported('variable %s first assigned inside a loop is used after it' % v)
         if any(isinstance(n, ast.Return) for n in ast.walk(s)):
@@ -469,6 +518,39 @@ def tr(stmts, env, cx, k):
         cx.loops.append('\n'.join(txt))
         pat = tuple_text(rets) if rets else '_'
         return ['let %s ← %s fuel %s' % (pat, lf, ' '.join(lname(p) for p in params))] + tr(rest, env, cx, k)
+    if isinstance(s, ast.For):
+        if s.orelse or not isinstance(s.target, ast.Name):
+            raise Unsupported('for … else / tuple target')
+        bq, tq, tyq = expr(s.iter, env, cx)
+        if tyq != 'bytes':
+            raise Unsupported('iteration over ' + tyq)
+        cx.nloop += 1
+        lf = '%s.for%d' % (cx.fname, cx.nloop)
+        var = s.target.id
+        occurring = set(names_in(ast.Module(body=list(s.body), type_ignores=[])))
+        params = [v for v in env if v in occurring and v != var]
+        assigned = assigned_in(s.body)
+        rets = [v for v in params if v in assigned]
+        msgs = message_vars(list(s.body))
+        for v in assigned + [var]:
+            if v in msgs:
+                continue
+            if v not in env and any(v in names_in(x) for x in rest):
+                raise Unsupported('variable %s first assigned inside a loop is used after it' % v)
+        if any(isinstance(n, (ast.Return, ast.Break, ast.Continue)) for st in s.body for n in ast.walk(st)):
+            raise Unsupported('return / break / continue inside a for loop')
+        call = lambda env_: ['%s it_rest %s' % (lf, ' '.join(lname(p) for p in params))]
+        kl = K(fall=call, brk=None, ret_ok=False)
+        envl = dict(env); envl[var] = 'int'
+        body = tr(list(s.body), envl, cx, kl)
+        rty = ' × '.join(lean_t(env[v]) for v in rets) if rets else 'Unit'
+        sig = 'def %s : List UInt8 → %s → R (%s)' % (lf, ' → '.join(lean_t(env[p]) for p in params), rty)
+        txt = [sig, '  | [], %s => .ok %s' % (', '.join(lname(p) for p in params), tuple_text(rets) if rets else '()'),
+               '  | it_head :: it_rest, %s => do' % ', '.join(lname(p) for p in params),
+               '    let %s := (it_head.toNat : Int)' % lname(var)] + ind(body, 4)
+        cx.loops.append('\n'.join(txt))
+        pat = tuple_text(rets) if rets else '_'
+        return bq + ['let %s ← %s %s %s' % (pat, lf, tq, ' '.join(lname(p) for p in params))] + tr(rest, env, cx, k)
     if isinstance(s, ast.Try):
         if s.orelse or s.finalbody or len(s.handlers) != 1:
             raise Unsupported('try with else/finally/several handlers')
@@ -513,7 +595,7 @@ def translate_function(fn, consts, cls=None, funcs=None, lean_name=None):
             env['self'] = 'self:' + cls['name']
             continue
         ann = ast.unparse(a.annotation) if a.annotation is not None else ''
-        ty = {'int': 'int', 'bytes': 'bytes', 'bytearray': 'bytes', 'bytes | bytearray': 'bytes', 'memoryview': 'bytes'}.get(ann)
+        ty = {'int': 'int', 'bytes': 'bytes', 'bytearray': 'bytes', 'bytes | bytearray': 'bytes', 'memoryview': 'bytes', 'bytes | bytearray | None': 'bytes', 'bytes | None': 'bytes'}.get(ann)
         if ty is None:
             raise Unsupported('parameter %s: %s' % (a.arg, ann))
         env[a.arg] = ty
@@ -577,6 +659,8 @@ def translate_unit(repo, unit):
     tree = ast.parse(open(path).read())
     rt = module_consts(repo, unit['module'], unit.get('cls'))
     consts = rt['module']
+    for k_ in unit.get('triple_tables', []):
+        consts[k_] = 'TRIPLES'          # a large table of integer triples: referred to (Gen.*), not re-emitted
     defs = {n.name: n for n in tree.body if isinstance(n, ast.FunctionDef)}
     parts, report = [], {'functions': {}, 'constants': {}}
     const_lines, seen = [], set()
@@ -587,6 +671,10 @@ def translate_unit(repo, unit):
             if c not in seen:
                 seen.add(c)
                 v = consts[c]
+                if v == 'TRIPLES':
+                    report['constants'][c] = 'the run-time table dumped by tools/translate.py (%s), flattened' % unit['triple_tables'][c]
+                    const_lines.append('def c_%s : List (Int × Int × Int) := (%s).flatten.map fun e => ((e.1 : Int), (e.2.1 : Int), (e.2.2 : Int))' % (c, unit['triple_tables'][c]))
+                    continue
                 report['constants'][c] = v
                 const_lines.append('def c_%s : Int := %d' % (c, v) if isinstance(v, int) else 'def c_%s : List Int := [%s]' % (c, ', '.join(str(x) for x in v)))
 
@@ -659,13 +747,16 @@ def translate_unit(repo, unit):
         body = '\n\n'.join(parts) + ('\n\n' if parts else '') + '\n'.join(struct_lines) + '\n' + '\n\n'.join(mparts)
     else:
         body = '\n\n'.join(parts)
-    head_ = ['import HpackVerif.Src.Py',
+    head_ = ['import HpackVerif.Src.Py'] + ['import ' + m for m in unit.get('imports', [])] + [
              '/-! GENERATED by tools/py2lean.py from the source text of $HPACK_REPO/src/%s on every run. Do not edit. -/' % unit['rel'],
              'namespace Src', 'open Py', '']
+    head_ = [h for h in head_ if h is not None]
     return '\n'.join(head_ + const_lines + ['', body, '', 'end Src', '']), report
 
 
 UNITS = {
+    'SrcHuff': {'module': 'hpack.huffman_table', 'rel': 'hpack/huffman_table.py', 'functions': ['decode_huffman'],
+                'triple_tables': {'HUFFMAN_TABLE': 'Gen.huffTable'}, 'imports': ['HpackVerif.Generated.Table']},
     'SrcInt': {'module': 'hpack.hpack', 'rel': 'hpack/hpack.py', 'functions': ['encode_integer', 'decode_integer']},
     'SrcTable': {'module': 'hpack.table', 'rel': 'hpack/table.py', 'functions': ['table_entry_size'], 'cls': 'HeaderTable',
                  'methods': ['get_by_index', '_shrink', 'add', 'maxsize.setter']},
